@@ -289,4 +289,284 @@ theorem numeralValue_encode (bs : List UInt8) (hlen : 0 < bs.length) (s : List C
   apply Nat.mod_eq_of_lt
   exact Nat.lt_of_lt_of_le (leValue_lt bs) (pow32_ge bs.length hlen)
 
+/-! ## headers -/
+
+theorem hdrGet_insert (a b : Headers) (n v name : List Char) (hn : hdrNameEq n name = false) :
+    hdrGet (a ++ (n, v) :: b) name = hdrGet (a ++ b) name := by
+  induction a with
+  | nil => simp [hdrGet, hn]
+  | cons x a ih =>
+    obtain ⟨n', v'⟩ := x
+    simp only [List.cons_append, hdrGet, ih]
+
+/-- the service function reads the header map only through the two look-ups -/
+theorem service_headers_congr (cfg : Cfg) (req : Req) (hs : Headers)
+    (h1 : hdrContains hs acrmName = hdrContains req.headers acrmName)
+    (h2 : hdrGet hs acrhName = hdrGet req.headers acrhName) :
+    service cfg { req with headers := hs } = service cfg req := by
+  obtain ⟨m, p, hs0, b⟩ := req
+  simp only at h1 h2
+  simp only [service, Req.hasACRM, Req.acrh, h1, h2]
+  rfl
+
+/-! ## request-target -/
+
+theorem mem_takeWhile_not {α : Type} (p : α → Bool) (l : List α) (c : α)
+    (hc : c ∈ l.takeWhile (fun c => !p c)) : p c = false := by
+  induction l with
+  | nil => simp at hc
+  | cons x l ih =>
+    rw [List.takeWhile_cons] at hc
+    by_cases hx : p x
+    · simp [hx] at hc
+    · simp only [hx, Bool.not_false, if_true, List.mem_cons] at hc
+      rcases hc with rfl | hc
+      · simpa using hx
+      · exact ih hc
+
+theorem dropWhile_eq_drop {α : Type} (p : α → Bool) (l : List α) :
+    l.dropWhile p = l.drop (l.takeWhile p).length := by
+  induction l with
+  | nil => rfl
+  | cons x l ih =>
+    by_cases hx : p x
+    · simp [List.dropWhile_cons, List.takeWhile_cons, hx, ih]
+    · simp [List.dropWhile_cons, List.takeWhile_cons, hx]
+
+theorem isSep_false {c : Char} (h : isSep c = false) : c ≠ '/' ∧ c ≠ '?' ∧ c ≠ '#' := by
+  simp only [isSep, Bool.or_eq_false_iff, decide_eq_false_iff_not] at h
+  exact ⟨h.1.1, h.1.2, h.2⟩
+
+/-- the path the parser extracts is a prefix of what it was given -/
+theorem pathScan_prefix (s p : List Char) (h : pathScan s = some p) : p <+: s := by
+  induction s generalizing p with
+  | nil => simp [pathScan] at h; subst h; exact List.nil_prefix
+  | cons c r ih =>
+    unfold pathScan at h
+    split at h
+    · split at h
+      · cases h; exact List.nil_prefix
+      · cases h
+    · split at h
+      · cases h; exact List.nil_prefix
+      · split at h
+        · cases hr : pathScan r with
+          | none => rw [hr] at h; cases h
+          | some q =>
+            rw [hr] at h
+            simp only [Option.map_some, Option.some.injEq] at h
+            subst h
+            exact List.cons_prefix_cons.mpr ⟨rfl, ih q hr⟩
+        · cases h
+
+/-- the authority ends at the first `/ ? #` (or at the end) -/
+theorem authScan_end (s : List Char) (i : Nat) (st : AuthSt) (e : Nat) (st' : AuthSt)
+    (h : authScan s i st = some (e, st')) : e = i + (s.takeWhile (fun c => !isSep c)).length := by
+  induction s generalizing i st with
+  | nil => simp [authScan] at h; simp [h.1]
+  | cons c r ih =>
+    unfold authScan at h
+    by_cases hsep : isSep c = true
+    · simp only [hsep, if_true, Option.some.injEq, Prod.mk.injEq] at h
+      simp [List.takeWhile_cons, hsep, h.1]
+    · have hsep' : isSep c = false := by simpa using hsep
+      have htw : (List.takeWhile (fun c => !isSep c) (c :: r)).length =
+          1 + (List.takeWhile (fun c => !isSep c) r).length := by
+        simp [List.takeWhile_cons, hsep']; omega
+      rw [htw]
+      simp only [hsep', Bool.false_eq_true, if_false] at h
+      repeat' split at h
+      all_goals first
+        | (cases h; done)
+        | (have := ih _ _ h; omega)
+
+theorem authorityEnd_eq (s : List Char) (e : Nat) (h : authorityEnd s = some e) :
+    e = (s.takeWhile (fun c => !isSep c)).length := by
+  unfold authorityEnd at h
+  split at h
+  · cases h
+  · rename_i e' st hscan
+    have := authScan_end s 0 _ e' st hscan
+    repeat' split at h
+    all_goals first
+      | (cases h; done)
+      | (cases h; omega)
+
+theorem schemeChar_not_sep {c : Char} (h : schemeChar c = true) : c ≠ '/' ∧ c ≠ '?' ∧ c ≠ '#' := by
+  refine ⟨?_, ?_, ?_⟩ <;> (rintro rfl; revert h; decide)
+
+theorem schemeScan_found (s : List Char) (i : Nat) (sch rest : List Char)
+    (h : schemeScan s i = .found sch rest) :
+    s = sch ++ ':' :: '/' :: '/' :: rest ∧ ∀ c ∈ sch, c ≠ ':' ∧ c ≠ '/' ∧ c ≠ '?' ∧ c ≠ '#' := by
+  induction s generalizing i sch with
+  | nil => simp [schemeScan] at h
+  | cons c r ih =>
+    unfold schemeScan at h
+    by_cases hc : c = ':'
+    · subst hc
+      simp only [if_true] at h
+      split at h
+      · split at h
+        · cases h
+        · cases h; simp
+      · cases h
+    · simp only [hc, if_false] at h
+      by_cases hs : schemeChar c = true
+      · simp only [hs, if_true] at h
+        cases hr : schemeScan r (i + 1) with
+        | none => rw [hr] at h; cases h
+        | err => rw [hr] at h; cases h
+        | found sch' rest' =>
+          rw [hr] at h
+          simp only [SchemeRes.found.injEq] at h
+          obtain ⟨h1, h2⟩ := h
+          subst h1; subst h2
+          obtain ⟨e1, e2⟩ := ih (i + 1) sch' hr
+          refine ⟨by rw [e1]; rfl, ?_⟩
+          intro x hx
+          rcases List.mem_cons.mp hx with rfl | hx
+          · exact ⟨hc, schemeChar_not_sep hs⟩
+          · exact e2 x hx
+      · simp only [hs, Bool.false_eq_true, if_false] at h
+        cases h
+
+theorem ciEq_not_sep {c lo up : Char} (h : ciEq c lo up = true)
+    (hlo : lo ≠ ':' ∧ lo ≠ '/' ∧ lo ≠ '?' ∧ lo ≠ '#') (hup : up ≠ ':' ∧ up ≠ '/' ∧ up ≠ '?' ∧ up ≠ '#') :
+    c ≠ ':' ∧ c ≠ '/' ∧ c ≠ '?' ∧ c ≠ '#' := by
+  simp only [ciEq, Bool.or_eq_true, decide_eq_true_eq] at h
+  rcases h with rfl | rfl
+  · exact hlo
+  · exact hup
+
+theorem httpPrefix_found (t sch rest : List Char) (h : httpPrefix t = some (sch, rest)) :
+    t = sch ++ ':' :: '/' :: '/' :: rest ∧ ∀ c ∈ sch, c ≠ ':' ∧ c ≠ '/' ∧ c ≠ '?' ∧ c ≠ '#' := by
+  unfold httpPrefix at h
+  split at h
+  · split at h
+    · rename_i hc
+      simp only [Bool.and_eq_true] at hc
+      obtain ⟨⟨⟨h1, h2⟩, h3⟩, h4⟩ := hc
+      simp only [Option.some.injEq, Prod.mk.injEq] at h
+      obtain ⟨hs, hr⟩ := h
+      subst hs; subst hr
+      refine ⟨rfl, ?_⟩
+      intro x hx
+      simp only [List.mem_cons, List.not_mem_nil, or_false] at hx
+      rcases hx with rfl | rfl | rfl | rfl
+      · exact ciEq_not_sep h1 (by decide) (by decide)
+      · exact ciEq_not_sep h2 (by decide) (by decide)
+      · exact ciEq_not_sep h3 (by decide) (by decide)
+      · exact ciEq_not_sep h4 (by decide) (by decide)
+    · cases h
+  · cases h
+
+theorem httpsPrefix_found (t sch rest : List Char) (h : httpsPrefix t = some (sch, rest)) :
+    t = sch ++ ':' :: '/' :: '/' :: rest ∧ ∀ c ∈ sch, c ≠ ':' ∧ c ≠ '/' ∧ c ≠ '?' ∧ c ≠ '#' := by
+  unfold httpsPrefix at h
+  split at h
+  · split at h
+    · rename_i hc
+      simp only [Bool.and_eq_true] at hc
+      obtain ⟨⟨⟨⟨h1, h2⟩, h3⟩, h4⟩, h5⟩ := hc
+      simp only [Option.some.injEq, Prod.mk.injEq] at h
+      obtain ⟨hs, hr⟩ := h
+      subst hs; subst hr
+      refine ⟨rfl, ?_⟩
+      intro x hx
+      simp only [List.mem_cons, List.not_mem_nil, or_false] at hx
+      rcases hx with rfl | rfl | rfl | rfl | rfl
+      · exact ciEq_not_sep h1 (by decide) (by decide)
+      · exact ciEq_not_sep h2 (by decide) (by decide)
+      · exact ciEq_not_sep h3 (by decide) (by decide)
+      · exact ciEq_not_sep h4 (by decide) (by decide)
+      · exact ciEq_not_sep h5 (by decide) (by decide)
+    · cases h
+  · cases h
+
+theorem schemeOf_found (t sch rest : List Char) (h : schemeOf t = .found sch rest) :
+    t = sch ++ ':' :: '/' :: '/' :: rest ∧ ∀ c ∈ sch, c ≠ ':' ∧ c ≠ '/' ∧ c ≠ '?' ∧ c ≠ '#' := by
+  unfold schemeOf at h
+  split at h
+  · rename_i sch' rest' hh
+    simp only [SchemeRes.found.injEq] at h
+    obtain ⟨h1, h2⟩ := h; subst h1; subst h2
+    exact httpPrefix_found t _ _ hh
+  · split at h
+    · rename_i sch' rest' hh
+      simp only [SchemeRes.found.injEq] at h
+      obtain ⟨h1, h2⟩ := h; subst h1; subst h2
+      exact httpsPrefix_found t _ _ hh
+    · split at h
+      · exact schemeScan_found t 0 sch rest h
+      · cases h
+
+/-- Whatever form the request-target has: if the path hyper hands to the service function begins with
+a prefix `"/" ++ (non-empty token)`, the prefix stands literally in the request-target, at the start
+of its path. -/
+theorem pathOfTarget_literal (t p pfx : List Char) (hp : pathOfTarget t = some p)
+    (hslash : pfx.head? = some '/') (hlen : 2 ≤ pfx.length) (h : pfx <+: p) : LiteralUnder pfx t := by
+  have hstar : ∀ q : List Char, q.length ≤ 1 → ¬ pfx <+: q := by
+    intro q hq hpre
+    have := List.IsPrefix.length_le hpre
+    omega
+  unfold pathOfTarget at hp
+  split at hp
+  · cases hp
+  · split at hp
+    · cases hp
+    · cases hp; exact absurd h (hstar _ (by simp))
+    · cases hp; exact absurd h (hstar _ (by simp))
+    · -- origin-form
+      left
+      exact List.IsPrefix.trans h (pathScan_prefix _ _ hp)
+    · -- everything else: `parse_full`
+      unfold parseFull at hp
+      split at hp
+      · cases hp
+      · -- authority-form
+        split at hp
+        · cases hp
+        · split at hp
+          · cases hp
+          · cases hp; exact absurd h (hstar _ (by simp))
+      · -- absolute-form
+        rename_i sch rest hsch
+        obtain ⟨ht, hschars⟩ := schemeOf_found t sch rest hsch
+        split at hp
+        · cases hp
+        · rename_i e he
+          have hee := authorityEnd_eq rest e he
+          split at hp
+          · cases hp
+          · rename_i hne
+            split at hp
+            · cases hp
+            · rename_i p0 hp0
+              have hpp : p = if p0.isEmpty then ['/'] else p0 := (Option.some.inj hp).symm
+              have hp0ne : p0.isEmpty = false := by
+                cases hpe : p0.isEmpty with
+                | false => rfl
+                | true => rw [hpe] at hpp; simp only [if_true] at hpp; rw [hpp] at h; exact absurd h (hstar _ (by simp))
+              rw [hp0ne] at hpp
+              simp only [Bool.false_eq_true, if_false] at hpp
+              subst hpp
+              right
+              refine ⟨sch, rest.takeWhile (fun c => !isSep c), hschars, ?_, ?_, ?_⟩
+              · intro c hc
+                exact isSep_false (mem_takeWhile_not isSep rest c hc)
+              · intro hnil
+                rw [hnil] at hee
+                simp at hee
+                exact hne hee
+              · have hpre : pfx <+: rest.drop e := List.IsPrefix.trans h (pathScan_prefix _ _ hp0)
+                obtain ⟨r, hr⟩ := hpre
+                refine ⟨r, ?_⟩
+                have hsplit : rest = rest.takeWhile (fun c => !isSep c) ++ rest.drop e := by
+                  rw [hee]
+                  conv => lhs; rw [← List.takeWhile_append_dropWhile (p := fun c => !isSep c) (l := rest)]
+                  rw [dropWhile_eq_drop]
+                rw [ht]
+                conv => rhs; rw [hsplit, ← hr]
+                simp [List.append_assoc]
+
 end Server
